@@ -574,20 +574,47 @@ func checkMountBuilder(c *Check) {
 			}
 			return nil
 		}
+		// what counts is the entry as it is appended to the builder's list (directly or through a helper of the
+		// package), however it was put together before
 		w.OnInstr = func(w *walker, st *wstate, in ssa.Instruction) {
-			if s, ok := in.(*ssa.Store); ok {
-				if fa, ok := s.Addr.(*ssa.FieldAddr); ok && strings.HasSuffix(derefType(fa.X.Type()).String(), "mount.Mount") {
-					switch fieldName(fa.X.Type(), fa.Field) {
-					case "Flags":
-						if i, ok := w.eval(st, s.Val).Int(); ok {
-							vals = append(vals, i)
-						} else {
-							vals = append(vals, -1)
-						}
-					case "FsType":
-						fstype = append(fstype, w.eval(st, s.Val).String())
-					}
+			call, ok := in.(*ssa.Call)
+			if !ok {
+				return
+			}
+			bi, ok := call.Call.Value.(*ssa.Builtin)
+			if !ok || bi.Name() != "append" || len(call.Call.Args) != 2 {
+				return
+			}
+			slT, isSl := call.Type().Underlying().(*types.Slice)
+			if !isSl || !strings.HasSuffix(slT.Elem().String(), "mount.Mount") {
+				return
+			}
+			sl, ok := call.Call.Args[1].(*ssa.Slice)
+			if !ok {
+				vals = append(vals, -1)
+				return
+			}
+			arr := w.eval(st, sl.X)
+			if arr.k != avPtr {
+				vals = append(vals, -1)
+				return
+			}
+			el := w.load(st, arr.key+"[0]", slT.Elem())
+			if el.k != avStruct {
+				vals = append(vals, -1)
+				return
+			}
+			if f := el.fields["Flags"]; f != nil {
+				if i, ok := f.Int(); ok {
+					vals = append(vals, i)
+				} else {
+					vals = append(vals, -1)
 				}
+			} else {
+				vals = append(vals, 0)
+			}
+			if f := el.fields["FsType"]; f != nil {
+				fstype = append(fstype, f.String())
 			}
 		}
 		w.Run()
